@@ -772,6 +772,14 @@ theorem invR_fire {c : Cfg} {drp : List Req} (h : InvR c drp) (l : Label) : InvR
     simp only [fire]; split
     · next m heq => exact InvR.mkLive rfl h.st h.main ((h.live m _ heq).waiting _)
     · exact h
+  | promote j =>
+    simp only [fire]; split
+    · next m heq =>
+      unfold doPromote
+      split
+      · exact h
+      · exact InvR.mkLive rfl h.st h.main ((h.live m _ heq).waiting _)
+    · exact h
 
 /-! ### the error branches -/
 
@@ -1079,6 +1087,10 @@ theorem invR_fireErr (ce : CfgE) (h : InvR ce.base ce.dropped) (l : Label) :
     right
     simp only [fireErr]
     exact invR_fire h (.cancel j)
+  | promote j =>
+    right
+    simp only [fireErr]
+    exact invR_fire h (.promote j)
 
 theorem poisoned_fireErr (ce : CfgE) (hp : ce.poisoned = true) (l : Label) : (fireErr ce l).poisoned = true := by
   cases l with
@@ -1111,6 +1123,7 @@ theorem poisoned_fireErr (ce : CfgE) (hp : ce.poisoned = true) (l : Label) : (fi
     · simp only [doWakeErr, CfgE.failed]; (repeat' split) <;> exact hp
     · exact hp
   | cancel j => exact hp
+  | promote j => exact hp
 
 theorem invE_fireE {ce : CfgE} (h : InvE ce) (l : LabelE) : InvE (fireE ce l) := by
   cases l with
